@@ -18,8 +18,8 @@ from . import common as C
 from .common import ctx_for
 from . import spec as S
 
-HARNESS = C.Harness("h_bundle.cpp", assertions=True, extra_defines=["VS_STUB_LARGE_INVERSE"])
-TRANSFORM = C.Harness("h_bundle.cpp", assertions=True, extra_defines=["VS_STUB_LARGE_INVERSE", "VS_BUNDLE_TRANSFORM"])
+HARNESS = C.Harness("h_bundle.cpp", assertions=True, extra_defines=["VS_STUB_LARGE_INVERSE"], auto_valid=True)
+TRANSFORM = C.Harness("h_bundle.cpp", assertions=True, extra_defines=["VS_STUB_LARGE_INVERSE", "VS_BUNDLE_TRANSFORM"], auto_valid=True)
 
 
 def layouts(tier):
@@ -37,7 +37,8 @@ def run(rep, tier, seed):
     ls = layouts(tier)
     errs = HARNESS.build(ls, native=False)
     terrs = TRANSFORM.build(ls[:2] if tier == "quick" else ls, native=False)
-    rep.trust("REAL: machine arithmetic treated as mathematical",
+    rep.trust("auto-valid tracing (normalisation tests answered 'within threshold', each assumption proved by normal form)",
+              "REAL: machine arithmetic treated as mathematical",
               "A-EIGEN-INV for element groups whose rjacinv/ljacinv fall back to a numeric inverse; A-RAND",
               "tracer vsym/sym.h; engine/alg.py")
     rep.assume("bundle layouts are enumerated: %s" % ", ".join(ls))
@@ -50,7 +51,13 @@ def run(rep, tier, seed):
             rep.fail("C11/%s/instantiates" % g, "BUILD", "g++", {"compiler_output": errs[g].output[-3000:]},
                      {"failing_input_reproduced": False})
             continue
-        check_layout(rep, g, seed)
+        try:
+            check_layout(rep, g, seed)
+        except RuntimeError as e:
+            if "too many paths" not in str(e):
+                raise
+            # product of the elements' branch structures exceeds the path cap: this layout's remaining scenarios are not run
+            rep.not_run.append("C11/%s: %s" % (g, str(e)[-120:]))
     for g in (ls[:2] if tier == "quick" else ls):
         if g in terrs:
             lines = [l for l in terrs[g].output.splitlines() if "error" in l][:5]
